@@ -294,7 +294,11 @@ class C12(Engine):
                 res.viol("A1:status-%d:%s" % (st & 0xff, cause), **ctx)
                 continue
             if st == 0 and has_error_line:
-                res.viol("A2:status0-with-Error-line:%s" % cause, **ctx)
+                first = [l for l in lines if ERR_LINE.search(l)][0]
+                msg = re.sub(r" at \S+:\d+\.?$", "", first.strip())
+                msg = re.sub(r"'[^']*'", "T", msg)
+                msg = re.sub(r"-?\d+", "N", msg)
+                res.viol("A2:status0-with-Error-line:%s" % msg.replace(" ", "-")[:70], **ctx)
             if st != 0 and not any(FAIL_DIAG.search(l) for l in lines):
                 res.viol("A2:failure-without-diagnostic:%s%s" % (cause, fcause), **ctx)
             if st != 0 and out in ws:
